@@ -17,6 +17,7 @@ Definition compile1 (n : nat) (i : Spec.sinstr) : option (list SpecSem.sop) :=
   | Spec.SMeasReset b q false =>
       Some [SpecSem.SMs false (Stab.single n q (Stab.bpz b)); SpecSem.SPif (Stab.single n q (Stab.flip_of b)) 0]
   | Spec.SPauliIf P (Spec.CRec (S k)) => Some [SpecSem.SPif (snd (Spec.herm_of n P)) k]
+  | Spec.SPauliIf P (Spec.CVar v) => Some [SpecSem.SPifv (snd (Spec.herm_of n P)) (N.to_nat v)]
   | _ => None
   end.
 Fixpoint compile (n : nat) (c : list Spec.sinstr) : option (list SpecSem.sop) :=
@@ -47,9 +48,13 @@ Proof.
     destruct (SpecSem.sstep_SMeasReset n b q false r) as [E1 E2]. rewrite Hst in E1, E2.
     destruct (Stab.measure false (Stab.single n q (Stab.bpz b)) st) as [f st1]. cbn [fst snd nth] in *.
     split; cbn [fst snd]; [exact E1|]. rewrite E2, Hrec. cbn [rev]. now rewrite SpecSem.fflip_false.
-  - destruct c as [[|k]|v]; try discriminate. injection Hc as <-. cbn [fold_left SpecSem.sexec].
-    split; cbn [fst snd]; [|cbn [Spec.sstep]; destruct (Spec.herm_of n P); exact Hrec].
-    rewrite SpecSem.sstep_SPauliIf, Hst. cbn [Spec.ctrl_form]. rewrite Hrec, rec_at_rev by (exact (Hk k P eq_refl)). reflexivity.
+  - destruct c as [[|k]|v]; try discriminate.
+    + injection Hc as <-. cbn [fold_left SpecSem.sexec].
+      split; cbn [fst snd]; [|cbn [Spec.sstep]; destruct (Spec.herm_of n P); exact Hrec].
+      rewrite SpecSem.sstep_SPauliIf, Hst. cbn [Spec.ctrl_form]. rewrite Hrec, rec_at_rev by (exact (Hk k P eq_refl)). reflexivity.
+    + injection Hc as <-. cbn [fold_left SpecSem.sexec].
+      split; cbn [fst snd]; [|cbn [Spec.sstep]; destruct (Spec.herm_of n P); exact Hrec].
+      rewrite SpecSem.sstep_SPauliIf, Hst. cbn [Spec.ctrl_form]. unfold Spec.var_form, SpecSem.varf. now rewrite N2Nat.id.
 Qed.
 
 Fixpoint look_ok (n : nat) (c : list Spec.sinstr) (s : Stab.state * list Stab.form) : Prop :=
@@ -71,32 +76,38 @@ Proof.
     destruct Hl as [Hk Hl]. rewrite fold_left_app. apply IH; [reflexivity| exact Hl|]. now apply step_link.
 Qed.
 
-Lemma sinit_rel n : srel (Spec.sinit n 0) (Stab.init n, []).
+Lemma sinit_rel n base : srel (Spec.sinit n base) (SpecSem.st0 n base, []).
 Proof. split; reflexivity. Qed.
 
-(* Spec.srun: its recorded forms, evaluated under ANY assignment, are the record of a run the semantics allows ... *)
-Theorem srun_sound n c ops m k : compile n c = Some ops -> Forall (SpecSem.sop_ok n) ops -> look_ok n c (Stab.init n, []) ->
-  exists l S', FrameProg.realize (fun _ => false) [] (map SpecSem.tr ops) l /\ Run.sem_run (fun P => Zplus P) l S' /\
-               rev (fold_left SpecSem.push l []) = map (SpecProofs.eval_form m k) (Spec.recs (Spec.srun n 0 c)).
+(* Spec.srun: its recorded forms, evaluated under ANY assignment (coins from `base` upwards, sweep / fault variables below), are the
+   record of a run the semantics allows, with the external bits that assignment gives to the variables ... *)
+Theorem srun_sound n base c ops m k : compile n c = Some ops -> Forall (SpecSem.sop_ok n) ops -> look_ok n c (SpecSem.st0 n base, []) ->
+  exists l S', FrameProg.realize (fun v => SpecProofs.eval_form m k (SpecSem.varf v)) [] (map SpecSem.tr ops) l /\
+               Run.sem_run (fun P => Zplus P) l S' /\
+               rev (fold_left SpecSem.push l []) = map (SpecProofs.eval_form m k) (Spec.recs (Spec.srun n base c)).
 Proof.
-  intros Hc Hok Hl. destruct (spec_circuits_sound_unconditional n m k ops Hok) as (l & S' & Hre & Hrun & _ & Hrec).
+  intros Hc Hok Hl. destruct (spec_circuits_sound_unconditional n base m k ops Hok) as (l & S' & Hre & Hrun & _ & Hrec).
   exists l, S'. split; [exact Hre|]. split; [exact Hrun|].
-  destruct (run_link n c ops (Spec.sinit n 0) (Stab.init n, []) Hc Hl (sinit_rel n)) as [_ E]. unfold Spec.srun. rewrite E, Hrec. symmetry. apply map_rev.
+  destruct (run_link n c ops (Spec.sinit n base) (SpecSem.st0 n base, []) Hc Hl (sinit_rel n base)) as [_ E]. unfold Spec.srun. rewrite E, Hrec. symmetry. apply map_rev.
 Qed.
-(* ... and every run the semantics allows has such an evaluation as its record *)
-Theorem srun_complete n c ops la S' : compile n c = Some ops -> Forall (SpecSem.sop_ok n) ops -> look_ok n c (Stab.init n, []) ->
-  FrameProg.realize (fun _ => false) [] (map SpecSem.tr ops) la -> Run.sem_run (fun P => Zplus P) la S' ->
-  exists m k, List.length k = m /\ rev (fold_left SpecSem.push la []) = map (SpecProofs.eval_form m k) (Spec.recs (Spec.srun n 0 c)).
+(* ... and every run the semantics allows under external bits ext0 has such an evaluation as its record, with the variables below
+   `base` pinned to ext0 *)
+Theorem srun_complete n base ext0 c ops la S' : compile n c = Some ops -> Forall (SpecSem.sop_ok n) ops -> vars_below base ops ->
+  look_ok n c (SpecSem.st0 n base, []) ->
+  FrameProg.realize ext0 [] (map SpecSem.tr ops) la -> Run.sem_run (fun P => Zplus P) la S' ->
+  exists m k, List.length k = m /\ (forall v, v < base -> v < m /\ nth v k false = ext0 v) /\
+    rev (fold_left SpecSem.push la []) = map (SpecProofs.eval_form m k) (Spec.recs (Spec.srun n base c)).
 Proof.
-  intros Hc Hok Hl Hre Hrun. destruct (spec_complete_oracle n ops la S' Hok Hre Hrun) as (m & k & Hm & Hrec).
-  exists m, k. split; [exact Hm|].
-  destruct (run_link n c ops (Spec.sinit n 0) (Stab.init n, []) Hc Hl (sinit_rel n)) as [_ E]. unfold Spec.srun. rewrite E, Hrec. symmetry. apply map_rev.
+  intros Hc Hok Hv Hl Hre Hrun. destruct (spec_complete_oracle n base ext0 ops la S' Hok Hv Hre Hrun) as (m & k & Hm & Hpin & Hrec).
+  exists m, k. split; [exact Hm|]. split; [exact Hpin|].
+  destruct (run_link n c ops (Spec.sinit n base) (SpecSem.st0 n base, []) Hc Hl (sinit_rel n base)) as [_ E]. unfold Spec.srun. rewrite E, Hrec. symmetry. apply map_rev.
 Qed.
 Print Assumptions srun_sound. Print Assumptions srun_complete.
 
 (* non-vacuity: a Bell-pair circuit with a measure-reset and feedback compiles, and its operations are well formed *)
 Example srun_link_example :
   let c := [Spec.SU1 (Act.e_id (Act.gate_named "H"%string)) 0; Spec.SU2 (Act.e_id (Act.gate_named "CX"%string)) 0 1;
-            Spec.SMeasReset Stab.BZ 0 false; Spec.SPauliIf [(1, (true, false))] (Spec.CRec 1); Spec.SMeas [(1, (false, true))] false] in
-  exists ops, compile 2 c = Some ops /\ List.length ops = 6.
+            Spec.SMeasReset Stab.BZ 0 false; Spec.SPauliIf [(1, (true, false))] (Spec.CRec 1); Spec.SPauliIf [(0, (false, true))] (Spec.CVar 0);
+            Spec.SMeas [(1, (false, true))] false] in
+  exists ops, compile 2 c = Some ops /\ List.length ops = 7.
 Proof. vm_compute. eexists. split; reflexivity. Qed.
